@@ -621,6 +621,9 @@ def bind_always_writes(ctx, rule):
           d = fct[2]
       if d and '_CONFIG.setdefault(' in d:
         vw.append(n)
+    elif n.kind == 'stmt' and isinstance(a, ast.Assign) and isinstance(a.targets[0], ast.Subscript) and isinstance(a.targets[0].value, ast.Call) \
+        and u(a.targets[0].value.func) == '_CONFIG.setdefault':
+      vw.append(n)      # _CONFIG.setdefault(K, {})[A] = value
   w0 = witness(g, g.entry.id, [g.exit.id], avoid=[n.id for n in vw]) if vw else [g.entry.id]
   ctx.check(bool(vw) and w0 is None, rule, construct(bp), 'every successful bind stores the given value (the most recent binding wins)',
             'bind_parameter can return without storing the value: a re-binding that compares equal to the old value (1 vs True, two references / macros that '
